@@ -65,6 +65,8 @@ struct Ev {
     token: u16,
     bytes: Vec<u8>,
     seq: u32,
+    /// Shorter than one message: the driver reports an error (vsock) or nothing (sound).
+    undecodable: bool,
 }
 
 fn event_bytes(which: Which, seq: u32, lenc: usize) -> Vec<u8> {
@@ -139,16 +141,41 @@ impl TransportVisitor for V {
                     break;
                 }
                 let j = deviate(posted, "which posted buffer the device uses (default: oldest)");
-                let lenc = if which == Which::VsockRx { deviate(3, "written length (default: full)") } else { 0 };
+                let lenc = match which {
+                    Which::VsockRx => deviate(5, "written length (default: full)"),
+                    Which::Sound => deviate(3, "written length (default: full)"),
+                    Which::Input => 0,
+                };
                 seq += 1;
-                let bytes = event_bytes(which, seq, lenc);
+                let mut bytes = event_bytes(which, seq, if which == Which::VsockRx { lenc.min(2) } else { 0 });
+                // Writes shorter than one message: the event cannot be decoded, but the buffer must
+                // still come back.
+                let undecodable = match (which, lenc) {
+                    (Which::VsockRx, 3) => {
+                        bytes.truncate(0);
+                        true
+                    }
+                    (Which::VsockRx, 4) => {
+                        bytes.truncate(7);
+                        true
+                    }
+                    (Which::Sound, 1) => {
+                        bytes.truncate(0);
+                        true
+                    }
+                    (Which::Sound, 2) => {
+                        bytes.truncate(5);
+                        true
+                    }
+                    _ => false,
+                };
                 let token = co.borrow().held.get(&q).unwrap()[j].head;
                 let cap = co.borrow().held.get(&q).unwrap()[j].writable_len();
                 if bytes.len() > cap {
                     viol("buffer-too-small", format!("posted buffer holds {} bytes, the event needs {}", cap, bytes.len()));
                 }
                 co.borrow_mut().complete_held(q, j, &bytes, bytes.len() as u32);
-                pending.push_back(Ev { token, bytes, seq });
+                pending.push_back(Ev { token, bytes, seq, undecodable });
                 delivered += 1;
             }
             // The driver polls until nothing is left, plus once more.
@@ -208,7 +235,9 @@ impl TransportVisitor for V {
                 };
                 tag(if expect.is_some() { "poll:event" } else { "poll:empty" });
                 match (&got, &expect) {
-                    (Ok(Some(b)), Some(e)) if *b == e.bytes => {}
+                    (Err(_), Some(e)) if e.undecodable && which == Which::VsockRx => {}
+                    (Ok(None), Some(e)) if e.undecodable && which == Which::Sound => {}
+                    (Ok(Some(b)), Some(e)) if *b == e.bytes && !e.undecodable => {}
                     (Ok(None), None) => {}
                     (g, e) => {
                         let k = match (g, e) {
